@@ -79,6 +79,49 @@ def check_overlap(val_a, slot_a, val_b, slot_b):
     return out
 
 
+RAM_A, RAM_B = 0x11223344, -0x55667788
+RAM_OPS = [("w32", val, slot) for val in (RAM_A, RAM_B) for slot in (4, 5, 6, 7)] + \
+          [("w8", byte, slot) for byte in (0x99, 0) for slot in range(4, 11)]
+
+
+def check_ram_history(ops):
+    """A sequence of 4-byte and 1-byte writes on one object (same values and slots may recur,
+    fields may overlap from above and from below); the model RAM decides after every step,
+    and everything is read back at the end."""
+    obj, port, board = new_object()
+    model = [0] * 32
+    out = []
+    desc = " ; ".join(f"{k}({v},{s})" for k, v, s in ops)
+    for kind, val, slot in ops:
+        if kind == "w32":
+            ret, exc = call(obj, "var_write_int32", (val, slot))
+            model[slot:slot + 4] = list(val.to_bytes(4, "big", signed=True))
+        else:
+            ret, exc = call(obj, "var_write", (val, slot))
+            model[slot] = val
+        if exc is not None or ret is not True or obj.err is not None:
+            return [("hist_write", f"{desc}: {kind}({val},{slot}) -> {ret!r} exc={exc!r} "
+                     f"err={obj.err!r}")]
+        if board.ram != model:
+            out.append(("hist_ram", f"{desc}: after {kind}({val},{slot}) the board RAM[4..13] is "
+                        f"{board.ram[4:14]}, the writes so far amount to {model[4:14]}"))
+            return out
+    for slot in (4, 5, 6, 7):
+        want = int.from_bytes(bytes(model[slot:slot + 4]), "big", signed=True)
+        got, exc = call(obj, "var_read_int32", (slot,))
+        if exc is not None or got != want or isinstance(got, bool):
+            out.append(("hist_read", f"{desc}: var_read_int32({slot}) = {got!r} ({exc!r}), the "
+                        f"board holds {want}"))
+    for slot in (4, 10):
+        got, exc = call(obj, "var_read", (slot,))
+        if exc is not None or got != model[slot]:
+            out.append(("hist_read", f"{desc}: var_read({slot}) = {got!r} ({exc!r}), the board "
+                        f"holds {model[slot]}"))
+    if obj.err is not None or port.queue or port.misattributed():
+        out.append(("hist_err", f"{desc}: err={obj.err!r} / exchange misaligned"))
+    return out
+
+
 def expected_motor_state(state, res1, res2):
     """Statement: m1 iff clamp(r1)!=0, m2 iff clamp(r2)!=0, mode = requested non-zero
     resolution (motor 1's when both given); unchanged mode when both are zero."""
@@ -167,6 +210,10 @@ def _job(job):
             bad = check_overlap(*item)
             if abs(item[1] - item[3]) < 4:
                 part.count("nontrivial")
+        elif kind == "ramhist":
+            bad = check_ram_history(item)
+            part.count("nontrivial")
+            part.count("ram_histories")
         elif kind == "motors":
             bad = check_motors(*item)
             part.count("nontrivial")
@@ -175,7 +222,7 @@ def _job(job):
             part.count("nontrivial")
         part.count("histories")
         part.count("transitions", {"int32": 2, "overlap": 4, "nick": 2}.get(kind, 0) or
-                   2 * len(item[1]))
+                   (len(item) + 6 if kind == "ramhist" else 2 * len(item[1])))
         for clause, msg in bad:
             part.violation(f"{clause}:{kind}:{item!r}", msg, {"kind": kind, "item": _js(item)})
         part.add("states", core.digest((kind, repr(item))))
@@ -202,6 +249,9 @@ def run(ctx):
     overlap_items = [(a, s, b, s + d) for a in sub for b in sub for s in slots
                      for d in range(-3, 4) if 0 <= s + d <= 28]
     jobs += [("overlap", chunk) for chunk in core.split(overlap_items, 32)]
+    depth = ctx.pick(3, 4)
+    ram_items = [tuple(h) for h in itertools.product(RAM_OPS, repeat=depth)]
+    jobs += [("ramhist", chunk) for chunk in core.split(ram_items, 64)]
     motor_items = [(st, [(r1, r2)], False) for st in MOTOR_STATES for r1 in REQ for r2 in REQ]
     motor_items += [(st, [(r1, r2)], True) for st in MOTOR_STATES for r1 in REQ for r2 in REQ]
     chain = [0, 1, 3, 5]
@@ -224,12 +274,15 @@ def run(ctx):
         "distinct_nontrivial": cnt.get("nontrivial", 0),
         "rule": "int32: all 625 combinations of bytes {00,01,7F,80,FF} (+ seed values) x every "
                 "slot 0..28, write/read-back and direct RAM inspection; overlapping double "
-                "writes; motors: all 20 board motor states (installed directly and reached via "
+                "writes; all histories of 3 (thorough 4) writes over 22 write operations (two int32 "
+                "values at four overlapping slots, single bytes at seven slots) checked against a "
+                "model RAM after every step; motors: all 20 board motor states (installed directly and reached via "
                 "library calls) x (r1,r2) in -1..7 squared, then depth-2/3 chains; nicknames: "
                 "17 x 17 prior/written (incl. names starting with the reply header characters); non-trivial = negative or >= 2^24 values, overlapping "
                 "slots, every motor and nickname history",
         "samples": core.rotate(part.samples, ctx.seed, 4),
         "int32_values": len(values),
+        "ram_histories": cnt.get("ram_histories", 0),
         "motor_histories": len(motor_items),
         "exhaustive": True,
     }
@@ -248,6 +301,8 @@ def replay(case):
         bad = check_int32(*item)
     elif kind == "overlap":
         bad = check_overlap(*item)
+    elif kind == "ramhist":
+        bad = check_ram_history([tuple(op) for op in item])
     elif kind == "motors":
         bad = check_motors(tuple(item[0]), [tuple(r) for r in item[1]], item[2])
     else:
